@@ -168,8 +168,8 @@ func runDWCase(c *Ctx, caseNo int, dc dwCase) (vt.Ev, error) {
 		content = string(b)
 	}
 	obs := vt.Ev{"fails": fails, "kindAtD": kindOfPath(D), "sameAsX": inoOf(D) != 0 && inoOf(D) == inoOf(filepath.Join(dest, "X")),
-		"sameAsY": inoOf(D) != 0 && inoOf(D) == inoOf(filepath.Join(dest, "Y")),
-		"childLeft": cInoBefore != 0 && inoOf(filepath.Join(D, "C")) == cInoBefore,
+		"sameAsY":      inoOf(D) != 0 && inoOf(D) == inoOf(filepath.Join(dest, "Y")),
+		"childLeft":    cInoBefore != 0 && inoOf(filepath.Join(D, "C")) == cInoBefore,
 		"keptDirInode": dInoBefore != 0 && inoOf(D) == dInoBefore, "leftover": len(leftover) > 0, "content": content,
 		"outsideTouched": vt.Opaque(outBefore.Ev()) != vt.Opaque(outAfter.Ev()) || dirIdentity(outside) != outDirBefore}
 	ev := vt.Ev{"ev": "DWCase", "case": caseNo, "old": dc.Old, "new": dc.New,
